@@ -611,13 +611,19 @@ impl<T: Send, R: ReceiverStore<T>> RendezvousShared<T, R> {
   /// and was removed (the owner keeps its payload); `false` if the handoff
   /// already committed (delivery stands).
   pub(crate) fn cancel_sender(&self, state_ptr: *const AtomicU8, state: &AtomicU8) -> bool {
+    // The lock is the linearization point of match-vs-cancel (module docs): a
+    // peer commits a handoff, including its unconditional `DONE` store, while
+    // holding it. Deciding WAITING -> CANCELLED before taking the lock lets a
+    // peer that has already popped this record overwrite CANCELLED with DONE
+    // after taking the payload: it reports success, we report cancellation,
+    // and the value is lost.
+    let mut core = self.core.lock();
     if state
       .compare_exchange(WAITING, CANCELLED, Ordering::SeqCst, Ordering::SeqCst)
       .is_err()
     {
       return false;
     }
-    let mut core = self.core.lock();
     if let Some(pos) = core.sender_waiters.iter().position(|r| r.state == state_ptr) {
       core.sender_waiters.remove(pos);
     }
@@ -628,13 +634,15 @@ impl<T: Send, R: ReceiverStore<T>> RendezvousShared<T, R> {
   /// `WAITING` and was removed; `false` if a sender already committed the
   /// handoff (the item now sits in the receiver's `dest`).
   pub(crate) fn cancel_receiver(&self, state_ptr: *const AtomicU8, state: &AtomicU8) -> bool {
+    // Under the lock, for the same reason as `cancel_sender`.
+    let mut core = self.core.lock();
     if state
       .compare_exchange(WAITING, CANCELLED, Ordering::SeqCst, Ordering::SeqCst)
       .is_err()
     {
       return false;
     }
-    self.core.lock().receivers.remove_receiver(state_ptr);
+    core.receivers.remove_receiver(state_ptr);
     true
   }
 }
